@@ -156,7 +156,7 @@ CHECKS["C13"] = {
 }
 CHECKS["C14"] = {
     "level": "exploration",
-    "jobs": [J("close", "c14", "TestClose", 2500, 200000, 8)],
+    "jobs": [J("close", "c14", "TestClose", 2500, 200000, 8), J("slowcloser", "c14", "TestSlowCloser", None, None)],
     "assumptions": [
         "the harness owns the finishing order of the Close calls through per-closer gates; gates are opened independently of whether the closer has been entered, so a sequential implementation is not rejected",
         "the only wall-clock bound (10 s) applies after every gate is open, i.e. when all work is provably finishable",
@@ -171,6 +171,7 @@ CHECKS["C19"] = {
         J("e2e-required", "c19", "TestEndToEndRequired", 800, 20000, 4),
         J("e2e-prop", "c19", "TestEndToEndProp", 500, 10000, 4),
         J("e2e-prop-emptykey", "c19", "TestEndToEndPropEmptyKey", 500, 10000, 2),
+        J("e2e-data", "c19", "TestEndToEndDataIsNotTagText", 800, 20000, 4),
         J("seedcorpus", "c19", "FuzzTagParse", None, None),
         J("fuzz-faithful", "c19", "FuzzFaithful", None, None, tiers=["thorough"], fuzz={"target": "FuzzFaithful", "time": {"quick": "10s", "thorough": "120s"}}, timeout={"thorough": 900}),
         J("fuzz", "c19", "FuzzTagParse", None, None, tiers=["thorough"], fuzz={"target": "FuzzTagParse", "time": {"quick": "10s", "thorough": "180s"}}, timeout={"thorough": 900}),
@@ -187,6 +188,7 @@ CHECKS["C11"] = {
         J("embedding", "c11", "TestEmbedding", 3000, 200000, 8),
         J("static", "c11", "TestStaticUnexportedEmbedding", None, None),
         J("diamond", "c11", "TestStaticDiamondEmbedding", None, None),
+        J("shadowlazy", "c11", "TestStaticShadowAndLazy", None, None),
     ],
     "assumptions": [
         "run-time built structs (reflect.StructOf) can only embed under an exported field name; embedded types with unexported names are covered by static fixtures",
@@ -196,7 +198,8 @@ CHECKS["C11"] = {
 
 CHECKS["C15"] = {
     "level": "exploration",
-    "jobs": [J("merge", "c15", "TestMerge", 2500, 60000, 8), J("reinitialize", "c15", "TestReinitialize", 800, 20000, 4)],
+    "jobs": [J("merge", "c15", "TestMerge", 2500, 60000, 8), J("reinitialize", "c15", "TestReinitialize", 800, 20000, 4),
+             J("sharedlist", "c15", "TestSharedLoaderList", 300, 6000, 2)],
     "assumptions": [
         "documents are shape-consistent (a key is a map in every source or a leaf in every source): what Viper does with map-vs-scalar conflicts is third-party behaviour outside the property",
         "keys are lower-case (Viper lower-cases keys); argument sources carry ints and plain strings only",
@@ -229,6 +232,7 @@ CHECKS["C17"] = {
         J("conversions", "c17", "TestConversions", 800, 15000, 2),
         J("structshapes", "c17", "TestStructShapes", 600, 10000, 2),
         J("inconvertible", "c17", "TestInconvertible", 600, 10000, 2),
+        J("history", "c17", "TestRebindHistory", 800, 20000, 4),
         J("known", "c17", "TestKnownAnyNumberKind", None, None),
     ],
     "assumptions": [
